@@ -2,6 +2,9 @@
 
 from __future__ import annotations
 
+import hashlib
+import os
+import subprocess
 import sys
 from typing import Any
 
@@ -23,7 +26,7 @@ RULE = (
     "EnOptConfig object. Configurations of A: every built-in sampler method x shared on/off, two samplers, "
     "filter, stddev estimator, mask; slsqp, nelder-mead, differential_evolution with an explicit seed option. Oracle: the "
     "full trace of A (evaluator request arrays, labels, active flags, returned values, all arrays of every delivered "
-    "result, exit code) is BYTE-IDENTICAL to the solo run of A. Separately: changing only gradient.seed changes the "
+    "result, exit code) is BYTE-IDENTICAL to the solo run of A. For configurations with several samplers or a filter the solo run is repeated in three separately started interpreters with different PYTHONHASHSEED values and must give the same trace. Separately: changing only gradient.seed changes the "
     "perturbed variables for every stochastic sampler. Every execution is non-trivial."
 )
 ASSUMPTIONS = [
@@ -55,6 +58,12 @@ def configs() -> list[dict[str, Any]]:
     # boundary seeds: 0 is an explicit seed like any other, for the optimizer option and for the gradient seed
     out.append({"name": "de:seed0", "optimizer": "differential_evolution", "samplers": [("norm", False)], "de_seed": 0})
     out.append({"name": "slsqp:uniform:gseed0", "optimizer": "slsqp", "samplers": [("uniform", False)], "gseed": 0})
+    # an explicit seed may also be a generator object (SciPy advances it): two runs of the same configuration still agree
+    out.append({"name": "de:seed-generator", "optimizer": "differential_evolution", "samplers": [("norm", False)], "de_seed": "generator"})
+    # two different quasi-Monte-Carlo samplers draw from the shared generator when they are constructed: their
+    # construction order must not depend on anything but the configuration (see the separate-interpreter runs)
+    out.append({"name": "slsqp:two-qmc", "optimizer": "slsqp", "samplers": [("sobol", False), ("halton", True)], "assign": [0, 1, 0]})
+    out.append({"name": "slsqp:two-qmc-b", "optimizer": "slsqp", "samplers": [("lhs", False), ("sobol", False)], "assign": [1, 0, 1]})
     return out
 
 
@@ -65,7 +74,8 @@ def build(cfg: dict[str, Any], seed: int) -> dict[str, Any]:
     elif cfg["optimizer"] == "nelder-mead":
         optimizer["options"] = {"maxiter": 3}
     else:
-        optimizer["options"] = {"maxiter": 1, "popsize": 2, "seed": cfg.get("de_seed", 77)}
+        de_seed = cfg.get("de_seed", 77)
+        optimizer["options"] = {"maxiter": 1, "popsize": 2, "seed": np.random.default_rng(77) if de_seed == "generator" else de_seed}
         optimizer["parallel"] = bool(cfg.get("parallel"))
     config: dict[str, Any] = {
         "variables": {"initial_values": [0.5, -0.25, 1.0], "lower_bounds": [-5.0] * 3, "upper_bounds": [5.0] * 3},
@@ -295,6 +305,20 @@ def judge(case: dict[str, Any], run: dict[str, Any] | None = None) -> Judgement:
             for mode, trace in run["again"].items():
                 if trace != reference["trace"]:
                     j.fail(f"rerun-differs:{mode}", config=cfg["name"], where=first_diff(reference["trace"], trace))
+    elif case["kind"] == "interpreters":
+        # the same run in separately started interpreters with different string-hash salts
+        j.outcome = f"{cfg['name']}:separate-interpreters"
+        mine = trace_digest(reference["trace"])
+        for salt in ("1", "2", "3"):
+            env = dict(os.environ, PYTHONHASHSEED=salt)
+            proc = subprocess.run([sys.executable, "-m", "checks.c16", "--solo-digest", str(case["cfg"]), str(seed)], env=env, cwd=str(core.VERIF),
+                                  capture_output=True, text=True, timeout=600, stdin=subprocess.DEVNULL)
+            lines = [line for line in proc.stdout.splitlines() if line.startswith("DIGEST ")]
+            j.transitions += 1
+            if not lines:
+                j.fail("separate-interpreter-run-failed", stderr=proc.stderr[-400:], config=cfg["name"])
+            elif lines[-1].split()[1] != mine:
+                j.fail("trace-differs-between-interpreters", config=cfg["name"], hash_salt=salt)
     else:  # seed sensitivity
         other = solo(case["cfg"], seed + 1)
         j.outcome = f"{cfg['name']}:seed-change"
@@ -320,7 +344,8 @@ def run_shard(shard: dict[str, Any]) -> core.ShardResult:
     for choices, chooser, run in explore(lambda ch: run_a(cfg, seed, ch), bound):
         case = {"kind": "deviation", "cfg": cfg_index, "seed": seed, "choices": choices}
         rec.add(("d", cfg_index, seed, tuple(choices)), case, judge(case, run))
-    for kind in ("twice", "seed"):
+    kinds = ["twice", "seed"] + (["interpreters"] if len(cfg["samplers"]) > 1 or cfg.get("filter") else [])
+    for kind in kinds:
         case = {"kind": kind, "cfg": cfg_index, "seed": seed}
         rec.add((kind, cfg_index, seed), case, judge(case))
     rec.result.extra["deviation_bound"] = bound
@@ -331,5 +356,13 @@ def run_case(case: dict[str, Any]) -> Judgement:
     return judge(case)
 
 
+def trace_digest(trace: list[Any]) -> str:
+    return hashlib.sha256(repr(trace).encode()).hexdigest()
+
+
 if __name__ == "__main__":
+    if len(sys.argv) > 3 and sys.argv[1] == "--solo-digest":
+        core.quiet_numpy()
+        print("DIGEST", trace_digest(solo(int(sys.argv[2]), int(sys.argv[3]))["trace"]))
+        sys.exit(0)
     sys.exit(core.main(sys.modules[__name__]))
